@@ -145,13 +145,20 @@ def main():
     vals = sorted(m_.value for m_ in mach.DbgVmFaultType)
     out['MACH_vmfault']['se']['enums'] = {'e3': {'enum': 'mach.DbgVmFaultType', 'extract': 'whole', 'values': vals}}
     out['MACH_vmfault']['single']['enums'] = {'s3': {'enum': 'mach.DbgVmFaultType', 'extract': 'whole', 'values': vals}}
+    # frozen copy of every enum declared by the handler modules (member name -> value), for conditional domains
+    frozen = {}
+    for mn in ('bsd', 'mach', 'dyld', 'perf', 'trace', 'turnstile', 'fsystem'):
+        for k, v in vars(MODS[mn]).items():
+            if isinstance(v, type) and issubclass(v, enum.Enum) and v.__module__ == MODS[mn].__name__:
+                frozen[f'{mn}.{k}'] = {m_: x.value for m_, x in v.__members__.items()}
+    out['__enums__'] = frozen
     with open('/verif/mc/domains.json', 'w') as f:
         json.dump(out, f, indent=1, sort_keys=True)
-    n = sum(1 for v in out.values() if any(v.get(s, {}).get('enums') for s in ('se', 'single')))
+    n = sum(1 for k_, v in out.items() if k_ != '__enums__' and any(v.get(s, {}).get('enums') for s in ('se', 'single')))
     print('decoders:', len(out), 'with enum-valued words:', n)
     for name, v in out.items():
         for s in ('se', 'single'):
-            if v.get(s, {}).get('problems'):
+            if name != '__enums__' and v.get(s, {}).get('problems'):
                 print(name, s, v[s]['problems'])
 
 
